@@ -79,7 +79,7 @@ def _rejections_are_skips(fn):
 @oracle
 @_rejections_are_skips
 def gaussian_trainer(y, saliency, covariance_type):
-    m = dist.GaussianTrainer().fit(y.copy(), saliency=None if saliency is None else saliency.copy(),
+    m = dist.GaussianTrainer().fit(y.copy(order='K'), saliency=None if saliency is None else saliency.copy(order='K'),
                                    covariance_type=covariance_type)
     lead = y.shape[:-2]
     cls = {'full': dist.Gaussian, 'diagonal': dist.DiagonalGaussian, 'spherical': dist.SphericalGaussian}[covariance_type]
@@ -98,7 +98,7 @@ def gaussian_trainer(y, saliency, covariance_type):
 @oracle
 @_rejections_are_skips
 def cgauss_trainer(y, saliency):
-    m = dist.ComplexCircularSymmetricGaussianTrainer().fit(y.copy(), saliency=None if saliency is None else saliency.copy())
+    m = dist.ComplexCircularSymmetricGaussianTrainer().fit(y.copy(order='K'), saliency=None if saliency is None else saliency.copy(order='K'))
     for idx in _lead_iter(y.shape[:-2]):
         C = tu.o_scatter(y[idx], _sal_at(saliency, idx))
         e = tu.err(m.covariance[idx], C)
@@ -111,7 +111,7 @@ def cgauss_trainer(y, saliency):
 def watson_trainer(y, saliency, max_concentration, spline_markers):
     D = y.shape[-1]
     tr = dist.ComplexWatsonTrainer(max_concentration=max_concentration, spline_markers=spline_markers)
-    m = tr.fit(y.copy(), saliency=None if saliency is None else saliency.copy())
+    m = tr.fit(y.copy(order='K'), saliency=None if saliency is None else saliency.copy(order='K'))
     _, lo, hi = tu.watson_inverse_table(D, max_concentration, spline_markers)
     tol_ratio = 2e-7 * (1000.0 / spline_markers) ** 3 + 1e-9
     for idx in _lead_iter(y.shape[:-2]):
@@ -147,7 +147,7 @@ def watson_trainer(y, saliency, max_concentration, spline_markers):
 @oracle
 @_rejections_are_skips
 def vmf_trainer(y, saliency, min_concentration, max_concentration):
-    m = dist.VonMisesFisherTrainer().fit(y.copy(), saliency=None if saliency is None else saliency.copy(),
+    m = dist.VonMisesFisherTrainer().fit(y.copy(order='K'), saliency=None if saliency is None else saliency.copy(order='K'),
                                          min_concentration=min_concentration, max_concentration=max_concentration)
     D = y.shape[-1]
     for idx in _lead_iter(y.shape[:-2]):
@@ -167,7 +167,7 @@ def vmf_trainer(y, saliency, min_concentration, max_concentration):
 @_rejections_are_skips
 def cacg_trainer(y, iterations, hermitize, covariance_norm, eigenvalue_floor):
     m = dist.ComplexAngularCentralGaussianTrainer().fit(
-        y.copy(), hermitize=hermitize, covariance_norm=covariance_norm, eigenvalue_floor=eigenvalue_floor,
+        y.copy(order='K'), hermitize=hermitize, covariance_norm=covariance_norm, eigenvalue_floor=eigenvalue_floor,
         iterations=iterations)
     tol = 1e-8
     for idx in _lead_iter(y.shape[:-2]):
@@ -186,7 +186,7 @@ def cacg_trainer(y, iterations, hermitize, covariance_norm, eigenvalue_floor):
 def cacg_step(z, saliency, quadratic_form, hermitize, covariance_norm, eigenvalue_floor):
     """`_fit` with class weights: z (D, N) unit columns, saliency (K, N), quadratic_form (K, N)"""
     m = dist.ComplexAngularCentralGaussianTrainer()._fit(
-        y=z[None].copy(), saliency=saliency.copy(), quadratic_form=quadratic_form.copy(), hermitize=hermitize,
+        y=z[None].copy(order='K'), saliency=saliency.copy(order='K'), quadratic_form=quadratic_form.copy(order='K'), hermitize=hermitize,
         covariance_norm=covariance_norm, eigenvalue_floor=eigenvalue_floor)
     for k in range(saliency.shape[0]):
         C = tu.o_cacg_cov(z.T, saliency[k], quadratic_form[k], hermitize)
@@ -207,7 +207,7 @@ def cacg_fixed_point(y, iterations):
     z = tu.unit_rows_where(y)
 
     def residual(n):
-        m = dist.ComplexAngularCentralGaussianTrainer().fit(y.copy(), iterations=n)
+        m = dist.ComplexAngularCentralGaussianTrainer().fit(y.copy(order='K'), iterations=n)
         if m.covariance_eigenvalues.min() < 1e-6:
             return None
         B = tu.cov_from_eig(m.covariance_eigenvectors, m.covariance_eigenvalues)
@@ -233,7 +233,7 @@ def cacg_fixed_point(y, iterations):
 @_rejections_are_skips
 def bingham_trainer(y, saliency, max_concentration):
     tr = ComplexBinghamTrainer(max_concentration=max_concentration)
-    m = tr.fit(y.copy(), saliency=None if saliency is None else saliency.copy())
+    m = tr.fit(y.copy(order='K'), saliency=None if saliency is None else saliency.copy(order='K'))
     for idx in _lead_iter(y.shape[:-2]):
         z = tu.unit_rows(y[idx])
         S = tu.herm(tu.o_scatter(z, _sal_at(saliency, idx)))
@@ -267,7 +267,7 @@ def mixture_weight(affiliation, saliency, weight_constant_axis, as_list=False):
     wca = tu.wca_arg(weight_constant_axis)
     if as_list and isinstance(wca, tuple):
         wca = list(wca)
-    got = mmu.estimate_mixture_weight(affiliation.copy(), None if saliency is None else saliency.copy(), wca)
+    got = mmu.estimate_mixture_weight(affiliation.copy(order='K'), None if saliency is None else saliency.copy(order='K'), wca)
     want = tu.o_weight(affiliation, saliency, wca)
     K = affiliation.shape[-2]
     if isinstance(want, str):
@@ -321,7 +321,7 @@ def _single_fit(trainer, y, sal, opt):
 @_rejections_are_skips
 def saliency_is_repetition(trainer, y, counts, opt):
     counts = np.asarray(counts, dtype=np.int64)
-    a = _single_fit(trainer, y.copy(), counts.astype(np.float64), opt)
+    a = _single_fit(trainer, y.copy(order='K'), counts.astype(np.float64), opt)
     opt2 = dict(opt)
     if 'q' in opt:
         opt2['q'] = np.repeat(np.asarray(opt['q']), counts)
@@ -340,7 +340,7 @@ def mixture_saliency_is_repetition(model, y, emb, init, counts, iterations, opt)
     lead = y.ndim == 3
     sal = counts.astype(np.float64)
     if lead:
-        sal = np.broadcast_to(sal, y.shape[:-1]).copy()
+        sal = np.broadcast_to(sal, y.shape[:-1]).copy(order='K')
     try:
         a = tu.call_mixture(model, y, init, sal, iterations, opt, emb)
         b = tu.call_mixture(model, np.repeat(y, counts, axis=-2), np.repeat(init, counts, axis=-1), None, iterations, opt,
@@ -452,11 +452,11 @@ def mixture_alternation(model, y, emb, init, saliency, iterations, opt):
     re-examined step-wise (oracle E+M step applied to the code's own iterate n-1 must give the code's iterate n), which
     separates an update that is not the documented one from rounding drift amplified by a collapsing class."""
     lead = y.ndim == 3
-    sal = None if saliency is None else saliency.copy()
+    sal = None if saliency is None else saliency.copy(order='K')
     if not tu.class_mass_positive(model, init, saliency):
         return Skip('a class starts without mass')
     try:
-        m = tu.call_mixture(model, y.copy(), init.copy(), sal, iterations, opt, emb)
+        m = tu.call_mixture(model, y.copy(order='K'), init.copy(order='K'), sal, iterations, opt, emb)
     except tu.ALLOWED_EXC as e:
         return Skip(f'explicit rejection: {type(e).__name__}')
     tol = 1e-9 if iterations == 1 else 1e-6
@@ -488,7 +488,7 @@ def mixture_alternation(model, y, emb, init, saliency, iterations, opt):
         cur = m
         skip_reason = None
         for i in range(iterations, 1, -1):
-            prev = tu.call_mixture(model, y.copy(), init.copy(), sal, i - 1, opt, emb)
+            prev = tu.call_mixture(model, y.copy(order='K'), init.copy(order='K'), sal, i - 1, opt, emb)
             if tu.ill_conditioned(model, cur) or tu.ill_conditioned(model, prev):
                 skip_reason = skip_reason or 'a class collapsed (ill-conditioned parameters): comparison dominated by rounding'
                 cur = prev
@@ -666,7 +666,7 @@ def search(ctx):
         ctx.run(cacg_trainer, y=tu.gen_complex(rng, lead + (N2, D2)), iterations=int(rng.integers(1, 11)), hermitize=hz,
                 covariance_norm=norm, eigenvalue_floor=floor)
         K = int(rng.integers(1, 4))
-        z = tu.unit_rows_where(tu.gen_complex(rng, (N2, D2))).T.copy()
+        z = tu.unit_rows_where(tu.gen_complex(rng, (N2, D2))).T.copy(order='K')
         s3, _ = tu.gen_saliency(rng, (K, N2), str(rng.choice(['uniform', 'sparse', 'integer', 'tiny-scale', 'huge-scale'])))
         ctx.run(cacg_step, z=z, saliency=s3, quadratic_form=rng.random((K, N2)) + 0.05, hermitize=hz,
                 covariance_norm=norm, eigenvalue_floor=floor)
